@@ -103,4 +103,4 @@ def limit_for(n):
     The heaviest terminating paths are quadratic (grdp re-evaluates every segment per refinement, the
     recursive multi-knee wrappers call an O(n) detector per split); measured use stays below 20 % of this."""
     n = int(n)
-    return 20000 + 400 * n + 6 * n * n
+    return 250000 + 400 * n + 6 * n * n      # the floor leaves room for one-time initialisation work on a first call
